@@ -30,6 +30,12 @@ CHECKS = {
 }
 
 
+C18TXT = ("Nine busy scenarios (request awaiting ACK / separate response, block-wise up and down, observation on client and server, "
+          "backlog of three, slow handler before the empty ACK, live dedup entry), each next to a bystander context with its own in-flight "
+          "request: Context.shutdown() is started after every step of the default run (and of every one-deviation run), the loop is then "
+          "drained over EXCHANGE_LIFETIME. Shutdown returns within 3 s; every pending future/observation (and requests re-issued from "
+          "failure callbacks inside the shutdown window) ends with an aiocoap.error.Error; handlers see CancelledError; nothing is sent "
+          "and nothing raises in the loop afterwards; a later request fails with LibraryShutdown; the bystander completes as usual.")
 E2 = "stateless deviation-bounded schedule exploration (all runs with <= K departures from the default environment answer) of the real stack under a virtual event loop, monitored against a reference model"
 E3 = "explicit-state breadth-first search over operation histories with state deduplication, every transition executed on the real code and compared with a reference model"
 E1 = "bounded-exhaustive enumeration of a closed input space on the real code against an independent reference model"
@@ -92,6 +98,8 @@ CHECKS.update({
             "multicast destinations are checked never to be CON.",
             TB + "Don't-care cells (CON with reserved/signalling code; CON requests received on multicast) are excluded from the table comparison but still checked for invariants.",
             "DESIGN.md 6/C10"),
+    "C18": ("model_checking", E2 + " (the deviation is shutdown at every step)", C18TXT,
+            TB + "K=1 (quick, +K=2 on three scenarios), K=2 (thorough).", "DESIGN.md 6/C18"),
     "C14": ("model_checking", E2,
             "Scripted submissions of CON/NON requests to two peers; the monitor rebuilds open-exchange/backlog state per remote from the "
             "wire and the applied events: never two open CON exchanges per remote, FIFO release in the very step the exchange ahead ends, "
